@@ -6,6 +6,7 @@ import (
 	"reflect"
 	"runtime"
 	"sync"
+	"sync/atomic"
 	"testing"
 	"time"
 	"unsafe"
@@ -189,6 +190,17 @@ func runC12(c c12Case) (bool, []string, error) {
 		go func() {
 			defer wg.Done()
 			<-start
+			// every goroutine first registers a FRESH type of its own, all released by
+			// the same barrier (so the registrations overlap), and checks at the end
+			// of its program that its registration is in force
+			fresh := reflect.ArrayOf(int(c12FreshSeq.Add(1))+1000, reflect.TypeOf(int32(0)))
+			avro.Register(fresh, func(s avro.Schema, typ reflect.Type, omit bool) (avro.Codec, error) { return privCodec{}, nil })
+			avro.RegisterSchema(fresh, avro.Schema{Type: "long"})
+			defer func() {
+				if err := protect(func() error { return c12CheckFresh(fresh) }); err != nil {
+					errs <- fmt.Errorf("goroutine %d: %v", g, err)
+				}
+			}()
 			for i, op := range prog {
 				if op.Yield {
 					runtime.Gosched()
@@ -253,6 +265,35 @@ func runC12(c c12Case) (bool, []string, error) {
 		}
 	}
 	return n >= 3 && contended, labels, nil
+}
+
+var c12FreshSeq atomic.Int64
+
+// c12CheckFresh: the type registered at the start of the goroutine's program is
+// governed by its registered schema and codec.
+func c12CheckFresh(fresh reflect.Type) error {
+	holder := reflect.StructOf([]reflect.StructField{{Name: "P", Type: fresh, Tag: `json:"p"`}})
+	zero := reflect.New(holder).Elem().Interface()
+	s, err := avro.SchemaForType(zero)
+	if err != nil {
+		return fmt.Errorf("schema for a type registered concurrently with other registrations: %v", err)
+	}
+	if b, _ := s.Marshal(); string(b) != `{"type":"record","fields":[{"name":"p","type":"long"}]}` {
+		return fmt.Errorf("schema for a concurrently registered type: %s", b)
+	}
+	c, err := s.Codec(zero)
+	if err != nil {
+		return fmt.Errorf("the codec registered for %s concurrently with other registrations is not in force: %v", fresh, err)
+	}
+	v := reflect.New(holder)
+	v.Elem().Field(0).Index(0).SetInt(77)
+	wb := avro.NewWriteBuf(nil)
+	c.Write(wb, v.UnsafePointer())
+	// privCodec reads the first 8 bytes of the value: elements 0 and 1 of the int32 array
+	if want := ref.AppendLong(nil, 77^privMask); !bytes.Equal(wb.Bytes(), want) {
+		return fmt.Errorf("concurrently registered type %s encoded as % x, its registered codec writes % x", fresh, wb.Bytes(), want)
+	}
+	return nil
 }
 
 func c12Run(g int, op c12Op, banks chan *avro.ResourceBank) error {
